@@ -69,6 +69,15 @@ const POOL: &[(&str, Cls)] = &[
     (".typecache.bak", Cls::NearMiss),
     ("types.tmp", Cls::NearMiss),
     ("dependency-graph.svg", Cls::NearMiss),
+    ("types.custom.d.ts", Cls::NearMiss),
+    ("index.legacy.d.ts", Cls::NearMiss),
+    ("typesafe.d.ts", Cls::NearMiss),
+    ("commands.mock.ts", Cls::NearMiss),
+    ("bindings.test.ts", Cls::NearMiss),
+    ("events.ts.orig", Cls::NearMiss),
+    ("index.tmp", Cls::NearMiss),
+    ("commands.tmp", Cls::NearMiss),
+    (".typegen_write_test_1", Cls::NearMiss),
     ("custom.ts", Cls::Plain),
     ("README.md", Cls::Plain),
     ("sub/types.ts", Cls::Nested),
